@@ -5,7 +5,7 @@ the model's) + oracles on the real code: true objective at return <= at start, n
 deterministic budget prefixes (max_iter 0..6, max_epochs 1..20 around the extrapolation period)."""
 from .solver_common import run_parallel, run_bbox
 
-LEAN_MODULES = ["Skglm.Properties.C03"]
+LEAN_MODULES = ["Skglm.Properties.C03", "Skglm.Properties.BCD", "Skglm.Properties.ProxNewton"]
 
 
 def run(ctx, rep):
@@ -14,6 +14,9 @@ def run(ctx, rep):
                 "{1,2,5,6,7,8,12,13,14,20}; each solve is one evaluation; non-trivial = at least one outer iteration")
     run_parallel(ctx, rep, oracles=["descent", "budget"], n_quick=7, n_thorough=80)
     run_bbox(ctx, rep, oracles=["descent"], ladder=True, solvers_=["ProxNewton", "GramCD", "GroupBCD", "GroupProxNewton", "MultiTaskBCD"], n_quick=30, n_thorough=200)
+    from . import moves_common
+    moves_common.run_bcd_moves(ctx, rep)
+    moves_common.run_pn_linesearch(ctx, rep)
 
 
 def replay(ctx, payload):
